@@ -124,6 +124,7 @@ class Gen:
         self.names = INDEX_NAMES[: profile.nindex]
         self.nvars = 0
         self.vars = []  # recipes of variables, built in order
+        self.var_shapes = []
         self.used = set()  # ops used (labels)
 
     # -- small helpers
@@ -201,9 +202,14 @@ class Gen:
             opts += ["geo"]
         if "n" in L and shape == (self.g,) and self.p.facet:
             opts += ["n", "n"]
+        vrefs = [k for k, sh in enumerate(self.var_shapes) if sh == shape] if "var" in self.p.ops else []
+        if vrefs:
+            opts += ["varref"] * 4
         if not opts:
             return self.field_leaf(shape)
         k = self.pick(opts)
+        if k == "varref":
+            return ["var", self.pick(vrefs)]
         if k == "fld":
             return ["fld", self.pick(self.fields_of(shape))]
         if k == "lit":
@@ -224,6 +230,11 @@ class Gen:
                 names = [n for n in names if n != "Circumradius"] + ["Circumradius"]
             return ["geo", self.pick(names)]
         raise AssertionError(k)
+
+    def new_var(self, body, shape):
+        self.vars.append(body)
+        self.var_shapes.append(tuple(shape))
+        return ["var", len(self.vars) - 1]
 
     def unused(self, free, n=1):
         return [x for x in self.names if x not in free]
@@ -376,9 +387,9 @@ class Gen:
         if op in ("conj", "real", "imag"):
             return [op, e(shape, free, d)]
         if op == "var":
-            body = e(shape, free, d)
-            self.vars.append(body)
-            return ["var", len(self.vars) - 1]
+            if free:
+                return self.leaf(shape, free)
+            return self.new_var(e(shape, free, d), shape)
         if op == "restr":
             return ["restr", e(shape, free, d), self.pick(["+", "-"])]
         if op == "mul":
